@@ -81,8 +81,13 @@ def fn_shape(c, fj):
 # matching
 
 def _norm_ts(s, type_map):
-    """type display strings use crate-relative paths: replace the last segments of renamed types"""
+    """type display strings use crate-relative paths: replace the relative path (or, failing that, the last segment) of renamed
+    or moved types"""
     for new, old in type_map.items():
+        nrel, orel = new.split("::", 1)[-1], old.split("::", 1)[-1]
+        if nrel != orel and nrel in s:
+            s = re.sub(r"(?<![A-Za-z0-9_:])%s(?![A-Za-z0-9_])" % re.escape(nrel), orel, s)
+            continue
         ns, os_ = new.split("::")[-1], old.split("::")[-1]
         if ns != os_:
             s = re.sub(r"(?<![A-Za-z0-9_])%s(?![A-Za-z0-9_])" % re.escape(ns), os_, s)
